@@ -1,9 +1,30 @@
 package simkit
 
-// Disk is a simulated local disk (see simfs_impl.go for the afero wrapper).
+import (
+	"os"
+	"syscall"
+	"time"
+
+	"github.com/spf13/afero"
+)
+
+// Disk is a simulated local disk: an afero.Fs whose every call is a scheduling (and fault) point of its
+// owning client. The bytes live in the wrapped afero.Fs (MemMapFs, or OsFs on a private directory for
+// the kernel's O_EXCL).
 type Disk struct {
-	Name string
-	w    *World
+	Label string
+	w     *World
+	c     *Client
+	inner afero.Fs
+	// Scheduled=false makes the disk pass-through (no parking): for scenarios where the disk is not the subject.
+	Scheduled bool
+}
+
+// NewDisk wraps inner as the local disk of client c.
+func (w *World) NewDisk(name string, c *Client, inner afero.Fs) *Disk {
+	d := &Disk{Label: name, w: w, c: c, inner: inner, Scheduled: true}
+	w.Disks = append(w.Disks, d)
+	return d
 }
 
 func (d *Disk) apply(c *Call) result {
@@ -13,4 +34,160 @@ func (d *Disk) apply(c *Call) result {
 	return result{}
 }
 
-func (d *Disk) applyTorn(c *Call, t *Tape) result { return d.apply(c) }
+// applyTorn: a write lands partially and fails with ENOSPC.
+func (d *Disk) applyTorn(c *Call, t *Tape) result {
+	if c.Op == OpFsWrite && c.fsTorn != nil {
+		return c.fsTorn(t)
+	}
+	return d.apply(c)
+}
+
+func (d *Disk) do(op Op, key string, data []byte, f func() result, torn func(*Tape) result) result {
+	if !d.Scheduled {
+		return f()
+	}
+	return d.w.submit(&Call{Client: d.c, Disk: d, Op: op, Key: key, Data: data, fsApply: f, fsTorn: torn})
+}
+
+// --- afero.Fs
+
+// Create implements afero.Fs.
+func (d *Disk) Create(name string) (afero.File, error) {
+	r := d.do(OpFsCreate, name, nil, func() result {
+		f, err := d.inner.Create(name)
+		return result{any: f, err: err}
+	}, nil)
+	return d.wrapFile(name, r)
+}
+
+// Mkdir implements afero.Fs.
+func (d *Disk) Mkdir(name string, perm os.FileMode) error {
+	return d.do(OpFsMkdir, name, nil, func() result { return result{err: d.inner.Mkdir(name, perm)} }, nil).err
+}
+
+// MkdirAll implements afero.Fs.
+func (d *Disk) MkdirAll(path string, perm os.FileMode) error {
+	return d.do(OpFsMkdir, path, nil, func() result { return result{err: d.inner.MkdirAll(path, perm)} }, nil).err
+}
+
+// Open implements afero.Fs.
+func (d *Disk) Open(name string) (afero.File, error) {
+	r := d.do(OpFsOpen, name, nil, func() result {
+		f, err := d.inner.Open(name)
+		return result{any: f, err: err}
+	}, nil)
+	return d.wrapFile(name, r)
+}
+
+// OpenFile implements afero.Fs.
+func (d *Disk) OpenFile(name string, flag int, perm os.FileMode) (afero.File, error) {
+	op := OpFsOpen
+	switch {
+	case flag&os.O_EXCL != 0:
+		op = OpFsCreateExcl
+	case flag&os.O_CREATE != 0:
+		op = OpFsCreate
+	}
+	r := d.do(op, name, nil, func() result {
+		f, err := d.inner.OpenFile(name, flag, perm)
+		return result{any: f, err: err}
+	}, nil)
+	return d.wrapFile(name, r)
+}
+
+func (d *Disk) wrapFile(name string, r result) (afero.File, error) {
+	if r.err != nil {
+		return nil, r.err
+	}
+	f, _ := r.any.(afero.File)
+	if f == nil {
+		return nil, syscall.EIO
+	}
+	return &diskFile{File: f, d: d, name: name}, nil
+}
+
+// Remove implements afero.Fs.
+func (d *Disk) Remove(name string) error {
+	return d.do(OpFsRemove, name, nil, func() result { return result{err: d.inner.Remove(name)} }, nil).err
+}
+
+// RemoveAll implements afero.Fs.
+func (d *Disk) RemoveAll(path string) error {
+	return d.do(OpFsRemove, path, nil, func() result { return result{err: d.inner.RemoveAll(path)} }, nil).err
+}
+
+// Rename implements afero.Fs.
+func (d *Disk) Rename(oldname, newname string) error {
+	return d.do(OpFsRename, oldname+" -> "+newname, nil, func() result { return result{err: d.inner.Rename(oldname, newname)} }, nil).err
+}
+
+// Stat implements afero.Fs.
+func (d *Disk) Stat(name string) (os.FileInfo, error) {
+	r := d.do(OpFsStat, name, nil, func() result {
+		fi, err := d.inner.Stat(name)
+		return result{any: fi, err: err}
+	}, nil)
+	fi, _ := r.any.(os.FileInfo)
+	return fi, r.err
+}
+
+// Name implements afero.Fs.
+func (d *Disk) Name() string { return "simfs(" + d.inner.Name() + ")" }
+
+// Chmod implements afero.Fs.
+func (d *Disk) Chmod(name string, mode os.FileMode) error { return d.inner.Chmod(name, mode) }
+
+// Chown implements afero.Fs.
+func (d *Disk) Chown(name string, uid, gid int) error { return d.inner.Chown(name, uid, gid) }
+
+// Chtimes implements afero.Fs.
+func (d *Disk) Chtimes(name string, atime time.Time, mtime time.Time) error {
+	return d.do(OpFsOther, "chtimes "+name, nil, func() result { return result{err: d.inner.Chtimes(name, atime, mtime)} }, nil).err
+}
+
+// diskFile makes Write / WriteAt / Close / Sync of an open file scheduling points too.
+type diskFile struct {
+	afero.File
+	d    *Disk
+	name string
+}
+
+func (f *diskFile) Write(p []byte) (int, error) {
+	cp := append([]byte(nil), p...)
+	r := f.d.do(OpFsWrite, f.name, cp, func() result {
+		n, err := f.File.Write(cp)
+		return result{n: n, err: err}
+	}, func(t *Tape) result {
+		k := 0
+		if len(cp) > 1 {
+			k = t.Range(0, len(cp)-1)
+		}
+		n, _ := f.File.Write(cp[:k])
+		return result{n: n, err: syscall.ENOSPC}
+	})
+	return r.n, r.err
+}
+
+func (f *diskFile) WriteAt(p []byte, off int64) (int, error) {
+	cp := append([]byte(nil), p...)
+	r := f.d.do(OpFsWrite, f.name, cp, func() result {
+		n, err := f.File.WriteAt(cp, off)
+		return result{n: n, err: err}
+	}, func(t *Tape) result {
+		k := 0
+		if len(cp) > 1 {
+			k = t.Range(0, len(cp)-1)
+		}
+		n, _ := f.File.WriteAt(cp[:k], off)
+		return result{n: n, err: syscall.ENOSPC}
+	})
+	return r.n, r.err
+}
+
+func (f *diskFile) Close() error {
+	return f.d.do(OpFsClose, f.name, nil, func() result { return result{err: f.File.Close()} }, nil).err
+}
+
+func (f *diskFile) Sync() error {
+	return f.d.do(OpFsSync, f.name, nil, func() result { return result{err: f.File.Sync()} }, nil).err
+}
